@@ -157,3 +157,62 @@ func H02_refused_topic() {
 	vrtAssert("C02.connection_stays_usable", !c.isClosed())
 	vrtReach("C02.refused_topic")
 }
+
+// H02_pipelined_then_eof: a publisher writes two or three QoS 1 / QoS 2 PUBLISH packets (and the PUBRELs) in
+// one go and closes its sending side right behind them (the end of the stream arrives with the last bytes
+// or in a read of its own); it still reads. Everything that was received before the end of the stream is
+// processed as usual: a subscriber is handed each message exactly once, in order - also when the fan-out of the first one was held up while the end of
+// the stream arrived (round-9 change C02-18: the receiver's clean-up for dead connections, which also
+// closed the outgoing ring, ran for a plain end of stream as well).
+func H02_pipelined_then_eof() {
+	b := vrtBroker("mockSuccess")
+	s, _ := b.connect(vrtConnectPkt([]byte("s"), true))
+	vrtExchange(s, &specPkt{Typ: specSUBSCRIBE, ID: 1, Topics: [][]byte{[]byte("t")}, QoS: []byte{2}})
+	held := vrtBool("fanout_held_up")
+	g := vrtNewGate()
+	if held {
+		b.svr.Subscribe("t", 0, &g.fn)
+	}
+	p, _ := b.connect(vrtConnectPkt([]byte("p"), true))
+	n := 2 + vrtChoice("packets", 2)
+	q := 1 + byte(vrtChoice("qos", 2))
+	var burst []byte
+	for i := 0; i < n; i++ {
+		burst = append(burst, specEncode(&specPkt{Typ: specPUBLISH, Flags: q << 1, ID: uint16(10 + i), Topic: []byte("t"), Payload: []byte{'m', byte('1' + i)}})...)
+	}
+	if q == 2 {
+		for i := 0; i < n; i++ {
+			burst = append(burst, specEncode(&specPkt{Typ: specPUBREL, Flags: 2, ID: uint16(10 + i)})...)
+		}
+	}
+	p.mu.Lock()
+	p.eofWithLast = vrtBool("eof_with_last_bytes")
+	p.in = append(p.in, burst...)
+	p.peerClosed = true
+	p.cond.Broadcast()
+	p.mu.Unlock()
+	vrtQuiesce()
+	if held {
+		g.release()
+		vrtQuiesce()
+	}
+	acks, ok := vrtParse(p.peerTake())
+	vrtAssert("C02.stream_wellformed", ok)
+	// (whether the last acknowledgements still reach a peer that has closed its sending side depends on how fast
+	// the teardown that follows closes the socket: not demanded here; none may come twice or carry another id)
+	want := n
+	if q == 2 {
+		want = 2 * n
+	}
+	vrtAssert("C02.no_surplus_ack", len(acks) <= want)
+	for i := range acks {
+		vrtAssert("C02.ack_ids_from_the_requests", acks[i].ID >= 10 && acks[i].ID < uint16(10+n))
+	}
+	got, ok2 := vrtParse(s.peerTake())
+	vrtAssert("C02.stream_wellformed", ok2)
+	vrtAssert("C02.handed_over_count", len(got) == n)
+	for i := 0; i < n && i < len(got); i++ {
+		vrtAssert("C02.handed_over_original_content", vrtAnd(got[i].Typ == specPUBLISH, vrtBytesEq(got[i].Payload, []byte{'m', byte('1' + i)})))
+	}
+	vrtReach("C02.pipelined_then_eof")
+}
